@@ -109,6 +109,9 @@ def scan(source: str, callback: callable):
                 # Now we know that value that looks like property name-value pair
                 # was actually a selector
                 state.start = state.property_start
+                if state.end == -1:
+                    # Nothing but the delimiter after name, e.g. `a:{`
+                    state.end = state.property_delimiter + 1
 
             if notify(TokenType.Selector):
                 return
